@@ -42,6 +42,10 @@ func (c *Ctx) findPath(fn *ssa.Function, start ssa.Instruction, barrier, target 
 		blocked := false
 		for ; i < len(b.Instrs); i++ {
 			in := b.Instrs[i]
+			if barrier(in) {
+				blocked = true
+				break
+			}
 			if target(in) {
 				// build the witness
 				var path []string
@@ -54,10 +58,6 @@ func (c *Ctx) findPath(fn *ssa.Function, start ssa.Instruction, barrier, target 
 					path[l], path[r] = path[r], path[l]
 				}
 				return path
-			}
-			if barrier(in) {
-				blocked = true
-				break
 			}
 		}
 		if blocked {
